@@ -89,8 +89,10 @@ impl<T> DualLinkedList<T> {
         self.len += 1;
         let node_ptr: *mut EventNode<T> = &mut *node;
 
-        // From back insert
-        let mut cur: *mut EventNode<T> = &mut *self.tail;
+        // From back insert. Start at the last real node: the tail sentinel
+        // (time Duration::MAX) must never be passed, otherwise an event
+        // scheduled at exactly Duration::MAX would be linked behind it.
+        let mut cur: *mut EventNode<T> = self.tail.prev;
         loop {
             // SAFTEY:
             // There a two cases
